@@ -268,7 +268,9 @@ def verify(repo="/repo", only=None, props=None, timeout_s=20, verbose=False, exa
         names.append(name)
     jobs = [(repo, n) for n in names]
     if len(jobs) > 1:
-        with mp.get_context("fork").Pool(min(solve.NPROC, len(jobs))) as pool:
+        # spawn, not fork: the generator uses z3 in-process with per-query limits, whose timer threads
+        # do not survive a fork (spurious `unknown` answers, i.e. load- and history-dependent paths)
+        with mp.get_context("spawn").Pool(min(solve.NPROC, len(jobs))) as pool:
             parts = pool.map(_gen_worker, jobs, chunksize=1)
     else:
         parts = [_gen_worker(j) for j in jobs]
@@ -440,6 +442,16 @@ def engine_checks(out, tier, repo, names=None):
             out["engine_error"] = "engine/CPython disagreement: %s" % broken[0]["detail"][:300]
     except Exception as exc:
         out["cross_check"] = {"error": repr(exc)[:300]}
+    # the definitional axioms of the spec functions hold in the intended (exact-arithmetic) model
+    try:
+        from . import axiomcheck
+        ax = axiomcheck.run(build_registry())
+        out["axiom_model_check"] = ax
+        if ax["failures"]:
+            out["engine_error"] = "spec-function axiom does not hold in its intended model: %s" % ax["failures"][0][:300]
+    except Exception as exc:
+        out["axiom_model_check"] = {"error": repr(exc)[:300]}
+        out["engine_error"] = "axiom model check crashed: %r" % (exc,)
     if tier == "thorough":
         try:
             res = selftest.run(verbose=False, only_functions=names)
